@@ -114,6 +114,10 @@ MENU_ENS = [ev([E0], 0, "all", single=True), ev([E1, E2], 0, "no", 0), ev([E2], 
             ev([("q", 0.9), E1], 0, "leadtime", 1)]
 
 
+# NetCDF inputs: a stored probability requested before / after the observations of either input are first loaded
+MENU_NC = [MENU12[0], MENU12[3], MENU12[9], MENU12[11], ev(["obs"], 1, "all", single=True), ev(["fcst"], 0, "no", 0, single=True), ev([P1], 0, "all", single=True)]
+
+
 def big_menu(small=False):
     sets = [(["obs", "fcst"], False), (["obs"], True), (["fcst"], True), (["pit"], True), (["obs", P1], False),
             (["fcst", "pit"], False), (["obs", P1, "fcst"], False), ([Q5, P1, "fcst", "obs"], False)]
@@ -154,9 +158,23 @@ class DataMachine(object):
     def events(self, hist):
         return self.menu
 
+    def _nc_inputs(self):
+        """the inputs as NetCDF files whose missing cells are masked by an explicit _FillValue that is an ordinary number
+        (reader state such as auto-masking lives in the open file handle of each input object)"""
+        import verif.input
+        d = os.path.join(H.scratch(), "c18nc%d" % os.getpid())
+        os.makedirs(d, exist_ok=True)
+        out = []
+        for a in self.ainputs:
+            p = os.path.join(d, "%s-%d.nc" % (a.name, self.seed))
+            if not os.path.exists(p):
+                gen.netcdf_file(a, p, missing_enc="fill")
+            out.append(verif.input.Netcdf(p))
+        return out
+
     def build(self, hist):
         import verif.data
-        inputs = [gen.mem_input(a) for a in self.ainputs]
+        inputs = [gen.mem_input(a) for a in self.ainputs] if self.config != "netcdf" else self._nc_inputs()
         clim = gen.mem_input(self.aclim) if self.aclim is not None else None
         pristine = fingerprint.fingerprint([("inputs", inputs), ("clim", clim)])
         kind, data, site, _ = H.quiet_call(verif.data.Data, inputs, clim=clim, **self.kw)
@@ -364,10 +382,10 @@ def plan(tier):
     if tier == "quick":
         return [("fix-plain", "plain", MENU12, None), ("fix-obsrange", "obsrange", MENU8, None),
                 ("fix-noobs", "noobs", MENU8, None), ("fix-clim", "clim", MENU8, None), ("fix-emptyslice", "emptyslice", MENU_EMPTY, None),
-                ("fix-ensemble", "ensemble", MENU_ENS, None), ("depth2-big", "plain", big_menu(small=True), 2)]
+                ("fix-ensemble", "ensemble", MENU_ENS, None), ("fix-netcdf", "netcdf", MENU_NC, 3), ("depth2-big", "plain", big_menu(small=True), 2)]
     return [("fix-plain", "plain", MENU16, None), ("fix-obsrange", "obsrange", MENU12, None),
             ("fix-noobs", "noobs", MENU12, None), ("fix-clim", "clim", MENU12, None), ("fix-emptyslice", "emptyslice", MENU_EMPTY + MENU8[:4], None),
-            ("fix-ensemble", "ensemble", MENU_ENS, None), ("depth2-big", "plain", big_menu(), 2), ("depth3-mid", "plain", big_menu(small=True), 3), ("depth2-big-clim", "clim", big_menu(), 2),
+            ("fix-ensemble", "ensemble", MENU_ENS, None), ("fix-netcdf", "netcdf", MENU12, None), ("depth2-big", "plain", big_menu(), 2), ("depth3-mid", "plain", big_menu(small=True), 3), ("depth2-big-clim", "clim", big_menu(), 2),
             ("depth2-big-obsrange", "obsrange", big_menu(), 2)]
 
 
